@@ -13,6 +13,7 @@ def leg(test, module="rt", quick=(1000, 1), thorough=(10000, 16), race=False, ti
                 timeout_s=timeout_s, env=env or {}, fixed=fixed)
 
 HOOK_COMMITS = ["dd392ad"]
+FIX_COMMITS = ["e449346", "ba22cb7", "3039ef0"]
 
 ALL_PROPS = ["C%02d" % i for i in range(1, 21)]
 
@@ -39,7 +40,8 @@ CHECKS = {
     "C05": dict(
         title="No received byte sequence can crash or wedge a Frugal process",
         legs=[
-            leg("TestC05Sync", quick=(4000, 4), thorough=(150000, 16), timeout_s=1800),
+            leg("TestC05Sync", quick=(4000, 4), thorough=(150000, 12), timeout_s=1800),
+            leg("TestC05E2E", quick=(150, 4), thorough=(4000, 4), timeout_s=1800),
         ],
         level="exploration",
         technique="property-based testing (rapid) with structure-aware mutation of valid frames at every receiving entry point; native go fuzzing in the thorough tier",
